@@ -185,7 +185,7 @@ def base_accepted(w, n):
 
 
 @harness("C06", args="fault: int, level: int, delta: int, w: int", pre=[f"0 <= fault < {NFAULT}", "0 <= level <= 1", "delta != 0 and -1 <= delta <= 1", "1 <= w <= 2", "w + delta >= 1"],
-         tiers={"quick": {"timeout": 170, "pre": ["w == 2"], "parts": [("lo", "fault < 8"), ("mid", "8 <= fault < 15"), ("hi", "fault >= 15")]},
+         tiers={"quick": {"timeout": 170, "pre": ["w == 2"], "parts": [(f"f{a}", f"{a} <= fault < {a + 4}") for a in range(0, NFAULT, 4)]},
                 "thorough": {"timeout": 600, "parts": parts_over("fault", range(NFAULT))}},
          sample=(14, 0, 1, 2),
          bounds="C06 on the fault planter's designs: whenever to_proto RETURNS for a mutated design (it should not: C02), the returned package must still be closed and self-consistent",
